@@ -62,25 +62,30 @@ theorem collect_pops {rec : Frame → Out} {P : Prog} {wh : Where} (rest : List 
     rw [ih { a with lists := a.lists ++ [(true, [popParam x.1 x.2])] }]
     simp [popList, List.append_assoc]
 
+/-- does this forwarding use feed the shared `removed_params` set? (not on the attribute-use path) -/
+def updRemoved : Use → Bool
+  | .call t _ _ => t.updatesRemoved
+  | _ => true
+
 theorem collect_forward {rec : Frame → Out} {P : Prog} {wh : Where} {f : Use} (hf : f.isForward = true) (a : Acc) :
     collect rec P wh [f] a =
       match subFrame P wh f with
-      | none => .ok (addForward a f.givenPos f.given [])
+      | none => .ok (addForward a f.givenPos f.given [] (updRemoved f))
       | some fr =>
         match rec fr with
-        | .ok r => .ok (addForward a f.givenPos f.given r)
+        | .ok r => .ok (addForward a f.givenPos f.given r (updRemoved f))
         | .crash => .crash
         | .nofuel => .nofuel := by
   cases f with
   | pop n d => cases hf
   | get n d => cases hf
   | superCall frm k g =>
-    simp only [collect, subFrame, Use.givenPos, Use.given]
+    simp only [collect, subFrame, Use.givenPos, Use.given, updRemoved]
     cases superFrame P wh frm with
     | none => rfl
     | some fr => cases rec fr <;> rfl
   | call t k g =>
-    simp only [collect, subFrame, Use.givenPos, Use.given]
+    simp only [collect, subFrame, Use.givenPos, Use.given, updRemoved]
     cases targetFrame wh t with
     | none => rfl
     | some fr => cases rec fr <;> rfl
@@ -238,15 +243,15 @@ theorem resolve_side {rec : Frame → Out} {P : Prog} {wh : Where}
   simp only [List.nil_append] at hR
   -- the callee's list
   have hcal : ∃ R', ((subFrame P wh f = none ∧ R' = []) ∨ ∃ fr, subFrame P wh f = some fr ∧ rec fr = .ok R') ∧
-      ∃ g, group (addForward ⟨List.map popList ps, []⟩ f.givenPos f.given R').lists = .ok g ∧
-        R = c.params ++ ((g.filter (fun p => decide (p.name ∉ (addForward ⟨List.map popList ps, []⟩ f.givenPos f.given R').removed))).filter
+      ∃ g, group (addForward ⟨List.map popList ps, []⟩ f.givenPos f.given R' (updRemoved f)).lists = .ok g ∧
+        R = c.params ++ ((g.filter (fun p => decide (p.name ∉ (addForward ⟨List.map popList ps, []⟩ f.givenPos f.given R' (updRemoved f)).removed))).filter
           (fun p => decide (p.name ∉ names c.params))) := by
     cases hsr : subFrame P wh f with
     | none =>
       rw [hsr] at hR
       simp only at hR
       refine ⟨[], Or.inl ⟨rfl, rfl⟩, ?_⟩
-      cases hg : group (addForward ⟨List.map popList ps, []⟩ f.givenPos f.given []).lists with
+      cases hg : group (addForward ⟨List.map popList ps, []⟩ f.givenPos f.given [] (updRemoved f)).lists with
       | crash => simp [hg] at hR
       | nofuel => simp [hg] at hR
       | ok g =>
@@ -261,7 +266,7 @@ theorem resolve_side {rec : Frame → Out} {P : Prog} {wh : Where}
       | ok R' =>
         simp only [hrr] at hR
         refine ⟨R', Or.inr ⟨fr, rfl, hrr⟩, ?_⟩
-        cases hg : group (addForward ⟨List.map popList ps, []⟩ f.givenPos f.given R').lists with
+        cases hg : group (addForward ⟨List.map popList ps, []⟩ f.givenPos f.given R' (updRemoved f)).lists with
         | crash => simp [hg] at hR
         | nofuel => simp [hg] at hR
         | ok g =>
@@ -271,7 +276,7 @@ theorem resolve_side {rec : Frame → Out} {P : Prog} {wh : Where}
   refine ⟨R', hsub, ?_⟩
   intro n
   have hgn := group_names hg n
-  have hlists : (∃ l ∈ (addForward ⟨List.map popList ps, []⟩ f.givenPos f.given R').lists, n ∈ names l.2) ↔
+  have hlists : (∃ l ∈ (addForward ⟨List.map popList ps, []⟩ f.givenPos f.given R' (updRemoved f)).lists, n ∈ names l.2) ↔
       (∃ x ∈ ps, x.1 = n) ∨ n ∈ names (removeGiven f.givenPos f.given R') := by
     simp only [addForward]
     by_cases hke : (removeGiven f.givenPos f.given R').isEmpty = true
@@ -295,10 +300,11 @@ theorem resolve_side {rec : Frame → Out} {P : Prog} {wh : Where}
   have hkept : n ∈ names (removeGiven f.givenPos f.given R') ↔ n ∈ names (R'.drop f.givenPos) ∧ n ∉ f.given := by
     unfold removeGiven
     rw [mem_names_filter_notin]
-  have hrem : n ∈ (addForward ⟨List.map popList ps, []⟩ f.givenPos f.given R').removed ↔
+  have hrem : n ∈ (addForward ⟨List.map popList ps, []⟩ f.givenPos f.given R' (updRemoved f)).removed →
       n ∈ names R' ∧ n ∈ f.given := by
-    simp [addForward, List.mem_filter]
-  rw [hReq, names_append, List.mem_append, mem_names_filter_notin, mem_names_filter_notin, hgn, hkept, hrem]
+    simp only [addForward]
+    split <;> simp [List.mem_filter]
+  rw [hReq, names_append, List.mem_append, mem_names_filter_notin, mem_names_filter_notin, hgn, hkept]
   constructor
   · rintro (h | ⟨⟨h, _⟩, _⟩)
     · exact Or.inl h
@@ -309,11 +315,11 @@ theorem resolve_side {rec : Frame → Out} {P : Prog} {wh : Where}
       · exact Or.inl hown
       · obtain ⟨x, hx, hxn⟩ := h
         refine Or.inr ⟨⟨Or.inl ⟨x, hx, hxn⟩, ?_⟩, hown⟩
-        rintro ⟨_, hgv⟩
-        exact hpg x hx (hxn ▸ hgv)
+        intro hr
+        exact hpg x hx (hxn ▸ (hrem hr).2)
     · by_cases hown : n ∈ names c.params
       · exact Or.inl hown
-      · exact Or.inr ⟨⟨Or.inr h, fun hh => h.2 hh.2⟩, hown⟩
+      · exact Or.inr ⟨⟨Or.inr h, fun hh => h.2 (hrem hh).2⟩, hown⟩
 
 /-- the interpreter's half on a straight-line body -/
 theorem accept_side {rec : Frame → String → Bool} {P : Prog} {wh : Where}
